@@ -1,7 +1,7 @@
 SPECIFICATION Spec
 CONSTANTS
   Cfg <- CfgSmall
-  Feeders <- F2
+  Feeders <- F3
   MaxWrites = 1
   MaxUpd = 1
   MaxGets = 1
@@ -13,4 +13,3 @@ CONSTANTS
   CloseWaits = TRUE
 INVARIANTS InBounds AbsOK Consistent Sub GetterOK ClosedErr NoPanic
 PROPERTIES NoPublishAfterClose WriteReturns CloseReturns AllDelivered
-
